@@ -144,6 +144,7 @@ def run(ctx):
   qp = ctx.func('config.query_parameter')
   ok = any(isinstance(n, ast.If) and 'len(matching_selectors) > 1' in u(n.test) and isinstance(n.body[-1], ast.Raise) for n in walk_local(qp.node))
   ctx.check(ok, 'C05.constant-guards', construct(qp), 'query_parameter rejects an ambiguous constant abbreviation', 'query_parameter no longer rejects ambiguous constants', qp.loc(), instance='query')
+  ctx.borrow('C13', 'C13.interactive', 'C05.constant-guards')     # the duplicate guard is lifted only while an interactive block is open
 
   # ---- C05.hook
   hk = ctx.func('config.validate_macros_hook')
